@@ -773,6 +773,10 @@ func (dr *dirRepo) gc() error {
 		if mod {
 			dr.index = i
 			if err := dr.indexSave(true); err != nil {
+				// index.json was not replaced: it is loaded again on the next access, the next collection
+				// drops the entries whose blobs were removed by this one
+				dr.timeIndex = time.Time{}
+				dr.timeCheck = time.Time{}
 				return err
 			}
 		}
